@@ -262,6 +262,12 @@ def has_seg_ids_at_coords(
 
     missing = {}
     for coord, seg_id in zip(coords, seg_ids, strict=False):
+        if len(coord) != segmentation.ndim:
+            errors.append(
+                f"Coords {coord} do not have one value for each of the {segmentation.ndim} "
+                "dimensions in the segmentation"
+            )
+            return False, errors
         try:
             scaled_coord = [c * s for c, s in zip(coord, scale, strict=True)]
             if any(c < 0 for c in scaled_coord):
